@@ -200,7 +200,7 @@ func runCheck(repo, prop, tier string, rest []string) int {
 
 	timeout := 10000
 	if tier == "thorough" {
-		timeout = 60000
+		timeout = 30000
 	}
 	if t := os.Getenv("VERIF_TIMEOUT_MS"); t != "" {
 		timeout, _ = strconv.Atoi(t)
